@@ -45,7 +45,7 @@ def main():
             'discharged': len(names) - len(bad),
             'theorems': {n: axioms.get(n) for n in names},
             'checker_cmd': 'cd lean && lake build && lake env lean <file with `#print axioms` for every theorem of '
-                           f'LazyDs/Props/{prop}.lean>' + (' && lake env leanchecker LazyDs.Props.' + prop if args.tier == 'thorough' else ''),
+                           f'LazyDs/Props/{prop}.lean>' + (' && lake env leanchecker <the modules of the property>' if args.tier == 'thorough' else ''),
             'lean_build_s': round(build_s, 1),
             'model_fingerprint': common.model_fingerprint(),
             'repo_fingerprint': common.repo_fingerprint(),
@@ -55,10 +55,11 @@ def main():
                            'what_no_longer_checks': [f'theorem {n}: axioms {axioms.get(n)}' for n in bad]},
                           no_input=True)
         if args.tier == 'thorough' and os.environ.get('VERIF_LEANCHECKER', '1') == '1':
-            rc, out = common.sh(['lake', 'env', 'leanchecker', f'LazyDs.Props.{prop}'], cwd=common.LEAN, timeout=3000)
+            mods, _ = common.theorem_names(prop)
+            rc, out = common.sh(['lake', 'env', 'leanchecker'] + mods, cwd=common.LEAN, timeout=3000)
             rep.coverage['leanchecker'] = 'ok' if rc == 0 else out[-500:]
             if rc != 0:
-                raise common.Infra('leanchecker rejected LazyDs.Props.' + prop + ': ' + out[-1500:])
+                raise common.Infra('leanchecker rejected ' + ' '.join(mods) + ': ' + out[-1500:])
         mod.run(rep)
         rc = rep.finish(level='proof')
     except common.Infra as e:
